@@ -467,4 +467,19 @@ example : String.ofList (normChars "a/../..".toList) = ".." := by decide
 example : dirname "/r/m/f0.yaml" = "/r/m" ∧ dirname (dirname "/r/m/f0.yaml") = "/r" ∧ dirname "/r" = "/" ∧ dirname "/" = "/" := by decide
 example : dirname "../m/f0.yaml" = "../m" ∧ dirname "../m" = ".." ∧ dirname ".." = "" := by decide
 
+/-- C06 (paths; the rule repaired by repo fix D25): `!path:parent(n)` is the folder of the file the node was written in, then
+    `n` levels up, then the components — folded lexically by the final `normpath`, so it also climbs past a leading `..` of
+    the name under which the file was reached. -/
+theorem C06_parent_n_is_n_levels_up (w : World) (ref f : String) (n : Nat) (args : List String)
+    (h1 : ref ≠ "") (h2 : ref ≠ "cwd") (h3 : ref ≠ "file") (h : parseParentRef ref = some n) :
+    evalPath w ref (some f) args = .ok (.pathv (normpath (joinpath (pathParent f) (List.replicate n ".." ++ args)))) := by
+  simp [evalPath, h1, h2, h3, h]
+
+-- the hypotheses hold for `parent`; the former finding D25 (main file given as `../main.yaml`: `parent(1)` must be `../..`)
+-- is a corpus case of the correspondence (string slicing does not reduce in the kernel)
+example (w : World) (f : String) (args : List String) :
+    evalPath w "parent" (some f) args = .ok (.pathv (normpath (joinpath (pathParent f) args))) := by
+  have := C06_parent_n_is_n_levels_up w "parent" f 0 args (by decide) (by decide) (by decide) (by rfl)
+  simpa using this
+
 end AY
